@@ -37,6 +37,9 @@
   many hosts streaming at once                              relay_lossless_any_interleaving (+ _index_)
   -N                                                        relay_verbatim_with_N
   the loop runs until BOTH streams are at EOF               poll_loop_left_only_at_eof_of_both, handler_closes_exactly_at_eof
+  a ready descriptor is read in that iteration (xpoll.c's   ready_descriptor_gets_its_handler, silent_descriptor_not_handled,
+    translation + dsh.c's mask), EINTR retried by the loop    interrupted_poll_is_retried, xpoll_contract,
+    stdout's handler before stderr's                          one_iteration_stdout_before_stderr (Relay/XPoll.lean)
   a worker is done only after its output is delivered (C03) worker_done_has_delivered_everything, worker_done_equals_runStream
   a host that is given up on (timeout, poll error)          abandoned_stream_relays_what_was_read, worker_delivers_what_it_read
   a host whose command never starts                         unstarted_host_writes_nothing
@@ -44,14 +47,18 @@
   domain: NUL-free, lines <= 128 KiB, no marker             dom_in_words; sharpness: beyond_domain_drops_head,
                                                               nul_cuts_record, extractRc_with_marker_cuts, marker_lookalikes_untouched
   the constants the proof leans on (cbuf_create arguments,  growthOk_generated(_assert), growth_from_4096_ok,
-    CBUF_CHUNK, bookkeeping cells)                            growth_from_1024_not_ok, short_growth_step_drops (necessity)
+    CBUF_CHUNK, bookkeeping cells)                            growth_from_1024_not_ok, short_growth_step_drops (necessity);
+                                                              Relay/GrowthUniform.lean `growthOk_of_le`: every 1..871 cells, no evaluation
 
   NOT PROVED (correspondence / real runs only): when the bytes of a stdio call reach the descriptor is the
   stdio layer's business (Relay/Stdio.lean, Props/C06 `records_reach_consumer_any_schedule`: assumption that
   glibc behaves like that writer); what a transport child does to inherited stdio buffers (seeded C06-5: must
   be nothing, `_exit`); read(2) errors other than EAGAIN/EINTR (the handler prints a diagnostic and closes the
-  descriptor: outside the property's domain, exercised by the scheduler part); `xpoll.c` itself and the kernel
-  (the LTS takes their behaviour as events: any subset reported, any cap, any order); threads (one worker per
+  descriptor: outside the property's domain, exercised by the scheduler part); the kernel's poll(2) (the LTS takes
+  its answers as events: any subset reported, any cap, any order; `XPoll.xpoll`/`loopIter` model what xpoll.c -- its
+  HAVE_POLL flavour; the select() flavour is not compiled here and not modelled -- and the loop body make of an
+  answer, run against the real xpoll.c over a scripted poll(2) and against every poll return of the real
+  `_rsh_thread` under the scheduler); threads (one worker per
   host, per-call atomicity of stdio: Props/C06); the hand-written model's fidelity to dsh.c/err.c as such
   (differential execution on every run, incl. `handleCap` under scripted read faults and `_parallel_copy`).
 -/
